@@ -7,8 +7,6 @@
    pseudo-state active); (2) legality is a property of the active SET and is preserved by snapshot / restore;
    (3) the steps that do not execute a transition keep the configuration: unhandled events, action lists, aborted
    transitions (rollback); (4) what a transition exits and what it enters is confined to the transition domain.
-   REFUTED as a universal invariant of the code at HEAD: a transition targeting the machine root (finding F5) exits
-   everything and enters nothing - kernel-checked witness below.
    (1b) THE INVARIANT ITSELF, by induction over runs: C01_sync_runs_stay_legal / C01_async_runs_stay_legal - built from
    C01_initial_configuration_legal (default descent), C01_transition_effect (closed formula for one transition),
    C01_transition_preserves_legality (replacement lemma over the state tree) and C01_event_preserves_legality;
@@ -19,8 +17,10 @@
    entry path is a tree below the domain (Proofs/TreeEntryP.v, HistoryP.v).  Former finding F34 - the history child of an
    active parallel state targeted from inside it, found by the correspondence while this case was still outside the
    theorems - is repaired in /repo; before the repair this theorem was false of the model.
-   PARTIAL: transitions that target the machine root break the invariant at HEAD (finding F5, kernel-checked witness
-   below); the side conditions are necessary: `initial` naming a history pseudo-state (F35), a history default target that
+   (1d) ANY TARGET: a transition that targets the machine root (former finding F5: everything was exited and nothing
+   entered - repaired in /repo) has the whole machine as its domain and restarts it: C01_root_transition_restarts; the
+   run theorems of (1c) therefore place NO restriction on which states transitions may target.
+   The remaining side conditions are necessary: `initial` naming a history pseudo-state (F35), a history default target that
    is itself a history pseudo-state (F36) or lies outside the history state's parent (F37) each make the code leave an
    illegal configuration - kernel-checked witnesses below, recorded findings. *)
 From XSM Require Import Model.Macro Model.Snap Proofs.LegalP Proofs.ExecP Proofs.FaultP Proofs.StepP Proofs.DescentP Proofs.EffectP Proofs.PreserveP Proofs.InvariantP Proofs.SelectP Proofs.HistoryP Proofs.InvariantHP Proofs.SortP Proofs.IdP Gen.GenTree.
@@ -78,8 +78,9 @@ Theorem C01_async_runs_stay_legal : forall m, wf m = true -> twf m = true -> goo
 Proof. exact InvariantP.async_run_inv. Qed.
 Print Assumptions C01_async_runs_stay_legal.
 
-(* ... and with transitions to history pseudo-states allowed (decidable conditions: wf, twf, good_initials,
-   safe_targets_hb); the invariant carried through the run is legality AND the consistency of the history store *)
+(* ... and with transitions to ANY state allowed - the machine root and history pseudo-states included (decidable
+   conditions: wf, twf, good_initials, safe_targets_hb, the last one only constraining the default targets of targeted
+   history states); the invariant carried through the run is legality AND the consistency of the history store *)
 Theorem C01_sync_runs_stay_legal_h : forall m, wf m = true -> twf m = true -> good_initials m = true -> safe_targets_h m ->
   forall cx evs, snd (sync_start m (st_init cx)) = None ->
   Legal m (s_cfg (sync_run m cx evs)) /\ HistOK m (s_hist (sync_run m cx evs)).
@@ -108,6 +109,13 @@ Theorem C01_history_transition_preserves_legality : forall m, wf m = true -> goo
   exec_external eng pr m t tgt ev s0 = (s1, None) -> Legal m (s_cfg s1).
 Proof. exact history_transition_legal. Qed.
 Print Assumptions C01_history_transition_preserves_legality.
+
+(* ... a completed transition to the machine ROOT restarts the machine: whatever the configuration was, the one it
+   leaves is the default descent from the root, hence legal ... *)
+Theorem C01_root_transition_restarts : forall m, wf m = true -> good_initials m = true -> forall eng pr t ev s0 s1,
+  exec_external eng pr m t 0 ev s0 = (s1, None) -> Legal m (s_cfg s1).
+Proof. exact root_transition_legal. Qed.
+Print Assumptions C01_root_transition_restarts.
 
 (* ... the history store is rewritten by _record_history only, which copies from the (legal) configuration the
    transition starts in: completed or aborted, the store stays consistent *)
@@ -153,9 +161,9 @@ Print Assumptions C01_transition_preserves_legality.
 Theorem C01_transition_effect : forall m eng pr t tgt ev s0 s1,
   exec_external eng pr m t tgt ev s0 = (s1, None) ->
   let d := find_domain m (t_src t) tgt in
-  let xs := rev (sort_by (lt_depth_id m) (exit_set_h m (s_cfg s0) (s_hist s0) d tgt)) in
+  let xs := rev (sort_by (lt_depth_id m) (ext_exit_set m (s_cfg s0) (s_hist s0) d tgt)) in
   let hist := is_history m tgt in
-  let path := if hist then [] else path_to m tgt d in
+  let path := if hist then [] else ext_path m tgt d in
   let cp := if hist then combined_path m d (resolve_history m (s_hist s0) tgt) else [] in
   s_cfg s1 = add_all (entered (S (size m)) m cp) (add_all (entered (S (size m)) m path) (remove_all xs (s_cfg s0))).
 Proof. exact external_effect. Qed.
@@ -205,19 +213,20 @@ Theorem C01_entry_path_confined : forall m tgt d x,
 Proof. exact path_to_sub. Qed.
 Print Assumptions C01_entry_path_confined.
 
-(* REFUTED at HEAD (finding F5): {m: initial a; a: on RESET -> #m; b}.  After RESET only the root is active. *)
+(* the machine of former finding F5 (repaired in /repo): {m: initial a; a: on RESET -> #m; b}.  RESET used to leave only
+   the root active; the whole machine is now the domain: everything, the root included, is exited and the root re-entered. *)
 Definition n_ id par k ch ini d on_ : node := Build_node id par k ch ini d [] [] on_ None [] [] None None.
 Definition f5 : machine := Build_machine
   [ n_ "m" None KCompound [1; 2] (Some 1) 0 [];
     n_ "m.a" (Some 0) KAtomic [] None 1 [("RESET"%string, [Build_trans 0 1 "RESET" (TState 0) None [] false false])];
     n_ "m.b" (Some 0) KAtomic [] None 1 [] ] 10 None.
-Theorem C01_invariant_refuted :
-  wf f5 = true /\
+Example C01_root_target_restarts_the_machine :
+  wf f5 = true /\ safe_targets_hb f5 = true /\ safe_targetsb f5 = false /\
   let s0 := fst (sync_start f5 (st_init [])) in
-  let s1 := fst (sync_send f5 (Build_event "RESET" EPlain 0) s0) in
-  legal f5 (s_cfg s0) = true /\ s_cfg s1 = [0] /\ legal f5 (s_cfg s1) = false.
-Proof. vm_compute. auto. Qed.
-Print Assumptions C01_invariant_refuted.
+  let s1 := fst (sync_send f5 (Build_event "RESET" EPlain 0) (with_log [] s0)) in
+  legal f5 (s_cfg s0) = true /\ s_cfg s1 = [0; 1] /\ legal f5 (s_cfg s1) = true /\
+  filter (fun o => match o with OEnter _ | OLeave _ => true | _ => false end) (rev (s_log s1)) = [OLeave 1; OLeave 0; OEnter 0; OEnter 1].
+Proof. vm_compute. repeat split; reflexivity. Qed.
 
 (* the machine of former finding F34 (repaired in /repo, see known_findings.json): a parallel state with a deep-history
    child h and regions r {x, y}, q {u, v}.  GO (x -> y) records history [q; r; u; x]; BACK (y -> #m.h) used to exit
